@@ -44,7 +44,25 @@ impl Concurrent<VirtualSystem> {
         F: Future<Output = ()>,
     {
         let mut task = pin!(task);
-        while poll!(&mut task).is_pending() {
+        loop {
+            // A process that was stopped or terminated by a signal while it was
+            // not running (for example, before its task was polled for the first
+            // time) must not execute any further.
+            let state = self.inner.current_process().state();
+            match state {
+                ProcessState::Running => (),
+                ProcessState::Halted(result) => {
+                    if result.is_stopped() && !self.inner.block_while_stopped().await {
+                        continue;
+                    }
+                    return;
+                }
+            }
+
+            if poll!(&mut task).is_ready() {
+                return;
+            }
+
             let state = self.inner.current_process().state();
             match state {
                 ProcessState::Running => {
